@@ -159,6 +159,7 @@ class HistoryGen(object):
         elif vnum(v) >= 14 and r.random() < 0.25:
             body['parent_provider_uuid'] = None    # explicit "no parent"
             mode = 'root-explicit-null'
+        self.respell_parent(body)
         return Req('POST', '/resource_providers', v, body,
                    tag={'mode': mode, 'rp': u})
 
@@ -210,8 +211,17 @@ class HistoryGen(object):
             else:
                 body['parent_provider_uuid'] = r.choice(ex)
                 mode = 'parent'
+        self.respell_parent(body)
         return Req('PUT', '/resource_providers/%s' % u, v, body,
                    tag={'mode': mode, 'rp': u})
+
+    def respell_parent(self, body):
+        """sometimes another VALID spelling of the parent's uuid (upper
+        case, no dashes): the schema's uuid format admits them"""
+        p = body.get('parent_provider_uuid')
+        if p and self.rng.random() < 0.15:
+            body['parent_provider_uuid'] = self.rng.choice(
+                [p.upper(), p.replace('-', ''), p.replace('-', '').upper()])
 
     def g_delete_rp(self, d):
         if not d.providers:
